@@ -251,6 +251,23 @@ theorem retry_patches_the_rest (a : VecAsm) (b b' : List Byte) (m m' : List Patc
   simp only at hretry
   simp [VecAsm.commit, Core.encodeRelocs, herr, hretry, hdyn, patchDynamics, dynamicsRest]
 
+/-- the same for the executable-memory `Assembler`: a commit whose static loop fails publishes nothing (the mapping, its length and the
+committed offset are untouched), keeps the pending bytes with the fields patched so far, and keeps the failing reference and everything
+behind it registered — split as in `failed_commit_keeps_unpatched`. -/
+theorem exec_failed_commit_keeps_unpatched (a : ExecAsm) (newAddr : Nat) (b : List Byte) (m : List PatchLoc) (e : Err)
+    (herr : a.core.error = none)
+    (hloop : patchStatics a.core.labels a.mem.committed a.mem.addr a.core.statics a.ops [] = (b, m, .err e)) :
+    ∃ a', a.commit newAddr = some (a', .err e) ∧ a'.mem = a.mem ∧ a'.ops = b ∧ a'.core.dynamics = a.core.dynamics ∧
+      a'.core.statics ≠ [] ∧
+      ∃ pre, a.core.statics = pre ++ a'.core.statics ∧
+        patchStatics a.core.labels a.mem.committed a.mem.addr pre a.ops [] = (b, m, .ok) := by
+  obtain ⟨pre, h1, h2⟩ := Patch.staticsRest_split a.core.labels a.mem.committed a.mem.addr a.core.statics a.ops []
+  rw [hloop] at h2
+  have hne := Patch.staticsRest_ne_nil_of_err _ _ _ _ _ _ _ _ _ hloop
+  refine ⟨{ a with core := { a.core with statics := staticsRest a.core.labels a.mem.committed a.mem.addr a.core.statics a.ops },
+                   ops := b, managed := a.managed.addAll m }, ?_, rfl, rfl, rfl, hne, pre, h1, h2⟩
+  simp [ExecAsm.commit, Core.encodeRelocs, herr, hloop]
+
 /-- non-vacuity: `jmp >l` (a 4-byte x64 field after the opcode byte) with `l` not defined yet: the commit fails, the reference stays -/
 def retryWitness : VecAsm :=
   { ops := [0xE9#8, 0#8, 0#8, 0#8, 0#8],
